@@ -673,7 +673,7 @@ mod verif_c19j {
     /// One-pixel strokes: every join of a width-1 outline collapses to the vertex itself (left == right ==
     /// the shared vertex on both edges), so each edge segment of the outline is a skeleton whose scanline
     /// intersection is the Bresenham line between the two vertices (c19_thick_segment_skeleton_row).
-    //@harness prop=C19 kind=bounded tier=quick class=P bound="vertices within -8..=7 (4-bit coordinates), stroke width 1, centred stroke" timeout=900 kani="--no-assertion-reach-checks" fns=src/primitives/common/line_join.rs::LineJoin::from_points;src/primitives/common/line_join.rs::LineJoin::start;src/primitives/common/line_join.rs::LineJoin::end
+    //@harness prop=C19 kind=bounded tier=thorough class=P bound="vertices within -8..=7 (4-bit coordinates), stroke width 1, centred stroke (did not finish in 15 min)" timeout=3000 kani="--no-assertion-reach-checks" fns=src/primitives/common/line_join.rs::LineJoin::from_points;src/primitives/common/line_join.rs::LineJoin::start;src/primitives/common/line_join.rs::LineJoin::end
     #[kani::proof]
     #[kani::unwind(5)]
     fn c19_width1_joins_are_vertices() {
